@@ -6,6 +6,7 @@ import (
 	"sync"
 	"sync/atomic"
 
+	"github.com/youchainhq/go-youchain/common"
 	"github.com/youchainhq/go-youchain/consensus"
 	"github.com/youchainhq/go-youchain/consensus/ucon"
 	"github.com/youchainhq/go-youchain/core/types"
@@ -170,7 +171,7 @@ func (hs *hist) build(d HHdr) (*Forged, error) {
 	round := header.Number
 	ri := c.HonestRI
 	uvIndex := ri + uint32(d.UV)
-	material := func(view *SetView, seed [32]byte, step uint32, th uint64, cred, blk, idx int, sub string) (list []listed) {
+	material := func(view *SetView, seed common.Hash, step uint32, th uint64, cred, blk, idx int, sub string) (list []listed) {
 		credIndex := ri + uint32(d.UV^cred)
 		pay := VotePayload(hs.blocks[d.Blk^blk].Hash(), round, ri+uint32(d.UV^idx))
 		for i, m := range c.Voters {
@@ -463,6 +464,13 @@ func (hs *hist) checkSeq(ops []HOp) {
 				return
 			}
 		}
+		// drop earlier verifications the wrong verdict does not need: one defect, one signature
+		ops = hs.minimiseSeq(ops[:i+1], p.Accept)
+		i = len(ops) - 1
+		if res, err = hs.run(ops); err != nil || len(res) != len(ops) {
+			r.HarnessError(fmt.Sprintf("history: minimised sequence %v does not run", ops))
+			return
+		}
 		var earlier []string
 		for _, e := range ops[:i] {
 			earlier = append(earlier, rel(e.H, op.H)+" with "+e.H.class(cert))
@@ -489,6 +497,22 @@ func (hs *hist) checkSeq(ops []HOp) {
 			r.Count("history: verifier_stricter_on_non_honest_header", 1)
 		}
 	}
+}
+
+// minimiseSeq removes earlier operations one at a time while the last verdict stays the (wrong) one observed.
+func (hs *hist) minimiseSeq(ops []HOp, wrong bool) []HOp {
+	for again := true; again && len(ops) > 1; {
+		again = false
+		for j := 0; j < len(ops)-1; j++ {
+			cand := append(append([]HOp{}, ops[:j]...), ops[j+1:]...)
+			res, err := hs.run(cand)
+			if err == nil && len(res) == len(cand) && res[len(res)-1].Panic == "" && res[len(res)-1].Accept == wrong {
+				ops, again = cand, true
+				break
+			}
+		}
+	}
+	return ops
 }
 
 // exploreHist: every sequence of length 1 and 2 over (family × entry points) — the last header taken from the
